@@ -2,7 +2,7 @@
 from mir import fmt, walk, strip_refs, callee_names, norm
 from flow import enum_paths, PathLimit, variant_name, cond_truth
 from c04 import is_err_term
-from binser import root_of, affine
+from binser import root_of, affine, fmt_affine
 
 EXPLANATION = ("Codec duality per text-archive format: each string writer and reader is characterised from its MIR "
                "(encoding static, terminator width, padding modulus, BOM handling) and the (writer, reader) pair used "
@@ -64,6 +64,7 @@ def characterise_writer(facts, wb):
     pad_mod = None
     pad_zero = False
     unknown = None
+    wrong = None
     loops = [q for q in paths if q.end == "loop"]
 
     def after_encoded(p):
@@ -128,6 +129,11 @@ def characterise_writer(facts, wb):
                     if a[2] != ("const", 0, "u8"):
                         unknown = None
                         pad_zero = False
+                elif af is not None and any(k[0] == "call" and k[1].endswith("::len") and norm(strip_refs(k[2][0])) == norm(strip_refs(a[0])) for k in af[0]) \
+                        and all(k[0] in ("call", "bin") for k in af[0]) \
+                        and not any(k[0] == "bin" and k[1] == "Rem" and any(y[0] == "call" and y[1].endswith("::len") and norm(strip_refs(y[2][0])) == norm(strip_refs(a[0])) for y in walk(k)) for k in af[0]):
+                    # buffer length plus something that does not depend on the buffer length modulo M
+                    wrong = "grows the buffer to %s: the amount is not computed from the buffer's own length, so the end is not a multiple of the reader's modulus" % fmt_affine(af)[:90]
                 else:
                     unknown = "resize to %s" % fmt(a[1])[:60]
             elif sh in ("push", "insert", "truncate", "extend", "append"):
@@ -175,7 +181,7 @@ def characterise_writer(facts, wb):
                                 order.append(x[2][1])
                 if order and order != sorted(order):
                     encoding += "(bytes swapped)"
-    return {"encoding": encoding, "terminator": zeros, "pad": pad_mod, "pad_pushes_zero": pad_push, "encoder": enc, "unknown": unknown}
+    return {"encoding": encoding, "terminator": zeros, "pad": pad_mod, "pad_pushes_zero": pad_push, "encoder": enc, "unknown": unknown, "wrong": wrong}
 
 
 def characterise_reader(facts, rb):
@@ -358,7 +364,9 @@ def run(facts, rep, ctx):
             continue
         partner = [rc for rc in rchar.values() if rc and rc["encoding"] == wc["encoding"]]
         rp = partner[0]["pad"] if partner else None
-        if wc["pad"] == rp == 4 and wc["pad_pushes_zero"] and all(p["pad_skips"] for p in partner):
+        if wc.get("wrong"):
+            rep.violation(R2, wn, "padding", "%s %s" % (wn.rsplit("::", 1)[-1], wc["wrong"]), "")
+        elif wc["pad"] == rp == 4 and wc["pad_pushes_zero"] and all(p["pad_skips"] for p in partner):
             rep.ok(R2, {"writer": wn, "pad": wc["pad"]})
         elif wc.get("unknown") or wc["pad"] is None or rp is None or any(p.get("unknown") for p in partner):
             rep.inconc(R2, "%s: padding not recognised (writer %s, reader %s; %s)" % (wn.rsplit("::", 1)[-1], wc["pad"], rp, wc.get("unknown")))
